@@ -138,6 +138,16 @@ pub mod mpsc {
 }
 """
 
+# The same for std::thread: helper threads the library starts itself become simulated tasks.
+VERIF_THREAD_RS = """//! generated by /verif/check.py (shadow build only)
+#![allow(unused_imports, dead_code)]
+pub use std::thread::*;
+pub use shuttle::thread::{
+    current, park, park_timeout, scope, sleep, spawn, yield_now, Builder, JoinHandle, Scope, ScopedJoinHandle,
+    Thread, ThreadId,
+};
+"""
+
 
 def rewrite_sync(text):
     """Redirect every path into std::sync / core::sync to crate::verif_sync (see VERIF_SYNC_RS).
@@ -161,25 +171,25 @@ def rewrite_sync(text):
             items.append(cur.strip())
         return items
 
-    def sync_trees(rest):
-        """`rest` is what follows `sync` in a use tree ('' | ' as x' | '::X' | '::{..}'); returns use trees."""
+    def sync_trees(rest, mod="sync"):
+        """`rest` is what follows `sync`/`thread` in a use tree ('' | ' as x' | '::X' | '::{..}'); returns use trees."""
         rest = rest.strip()
         if rest == "":
-            return ["crate::verif_sync as sync"]
+            return [f"crate::verif_{mod} as {mod}"]
         if rest.startswith("as "):
-            return [f"crate::verif_sync {rest}"]
+            return [f"crate::verif_{mod} {rest}"]
         rest = rest[2:] if rest.startswith("::") else rest
         subs = split_top(rest[1:-1]) if rest.startswith("{") and rest.endswith("}") else [rest]
         out, plain = [], []
         for sub in subs:
             if sub == "self":
-                out.append("crate::verif_sync as sync")
+                out.append(f"crate::verif_{mod} as {mod}")
             elif sub.startswith("self as "):
-                out.append(f"crate::verif_sync {sub[5:]}")
+                out.append(f"crate::verif_{mod} {sub[5:]}")
             else:
                 plain.append(sub)
         if plain:
-            out.append(f"crate::verif_sync::{{{', '.join(plain)}}}")
+            out.append(f"crate::verif_{mod}::{{{', '.join(plain)}}}")
         return out
 
     def one_use(prefix, trees):
@@ -191,9 +201,9 @@ def rewrite_sync(text):
         prefix, root, body = m.group(1), m.group(2), m.group(3)
         keep, moved = [], []
         for it in split_top(body):
-            mm = re.match(r"sync\b(.*)$", it, flags=re.S)
-            if mm and (mm.group(1).strip() == "" or mm.group(1).lstrip().startswith(("::", "as "))):
-                moved += sync_trees(mm.group(1))
+            mm = re.match(r"(sync|thread)\b(.*)$", it, flags=re.S)
+            if mm and (mm.group(2).strip() == "" or mm.group(2).lstrip().startswith(("::", "as "))):
+                moved += sync_trees(mm.group(2), mm.group(1))
             else:
                 keep.append(it)
         if not moved:
@@ -204,16 +214,18 @@ def rewrite_sync(text):
     pre = r"(^[ \t]*(?:pub(?:\([a-z:]+\))? )?)"
     text = re.sub(pre + r"use (?:::)?(std|core)::\{(" + nested + r")\};", std_tree, text, flags=re.M)
     # use std::sync; / use std::sync as x; / use std::sync::{self, ..};
-    text = re.sub(pre + r"use (?:::)?(?:std|core)::sync((?:\s+as\s+\w+)?);",
-                  lambda m: one_use(m.group(1), sync_trees(m.group(2))), text, flags=re.M)
-    text = re.sub(pre + r"use (?:::)?(?:std|core)::sync::(\{" + nested + r"\});",
-                  lambda m: one_use(m.group(1), sync_trees("::" + m.group(2))), text, flags=re.M)
-    # every remaining path
-    text, k = re.subn(r"(?<![\w:])(?:::)?(?:std|core)::sync\b", "crate::verif_sync", text)
-    if "crate::verif_sync" not in text:
+    text = re.sub(pre + r"use (?:::)?(?:std|core)::(sync|thread)((?:\s+as\s+\w+)?);",
+                  lambda m: one_use(m.group(1), sync_trees(m.group(3), m.group(2))), text, flags=re.M)
+    text = re.sub(pre + r"use (?:::)?(?:std|core)::(sync|thread)::(\{" + nested + r"\});",
+                  lambda m: one_use(m.group(1), sync_trees("::" + m.group(3), m.group(2))), text, flags=re.M)
+    # every remaining path (`std::thread_local!` is not a path into std::thread: \b after `thread`
+    # does not match before `_`)
+    text, k = re.subn(r"(?<![\w:])(?:::)?(?:std|core)::(sync|thread)\b", r"crate::verif_\1", text)
+    if "crate::verif_sync" not in text and "crate::verif_thread" not in text:
         return text, 0
     code = "\n".join(l for l in text.splitlines() if not l.lstrip().startswith("//"))
     n = len(re.findall(r"\b(?:Mutex|RwLock|Condvar|Barrier|Once|mpsc|atomic|Atomic[A-Z]\w*)\b", code))
+    n += len(re.findall(r"crate::verif_thread\b", code))
     return text, n
 
 
@@ -242,9 +254,10 @@ def prepare_shadow():
                 total += k
                 files.append(os.path.relpath(fp, SHADOW_DIR))
     open(os.path.join(SHADOW_DIR, "src", "verif_sync.rs"), "w").write(VERIF_SYNC_RS)
+    open(os.path.join(SHADOW_DIR, "src", "verif_thread.rs"), "w").write(VERIF_THREAD_RS)
     librs = os.path.join(SHADOW_DIR, "src", "lib.rs")
     with open(librs, "a") as f:
-        f.write("\nmod verif_sync;\n")
+        f.write("\nmod verif_sync;\nmod verif_thread;\n")
     # own workspace, no benches, shuttle as a dependency
     ct = open(os.path.join(SHADOW_DIR, "Cargo.toml")).read()
     import re
@@ -1028,6 +1041,8 @@ def check_c11(tier, seed):
                      "--worker", str(w), "--workers", str(W)], f"e{w}")
         batch.spawn(["c11", "--mode", "enum-dups", "--seed", str(seed), "--runs", "1000" if tier == "thorough" else "10",
                      "--worker", str(w), "--workers", str(W)], f"d{w}")
+        batch.spawn(["c11", "--mode", "enum-lens", "--seed", str(seed), "--runs", "1000" if tier == "thorough" else "10",
+                     "--worker", str(w), "--workers", str(W)], f"l{w}")
         batch.spawn(["c11", "--mode", "exhaustive", "--alphabet", "ascii7", "--len", str(plan["exh_len"]),
                      "--worker", str(w), "--workers", str(W)], f"x{w}")
         batch.spawn(["c11", "--mode", "exhaustive", "--alphabet", "wide", "--len", str(plan["wide_len"]),
@@ -1074,7 +1089,7 @@ def check_c11(tier, seed):
             "strings_enumerated": agg["exhaustive_strings"],
             "sink_fault_points_enumerated": agg["enumerated_fault_points"],
             "duplicate_positions_enumerated": agg["enumerated_dup_positions"],
-            "duplicate_positions_note": "files of 3..129 (quick) / 3..1030 (thorough) names or categories in four layouts; for every position p the p-th one repeats a random earlier one and the parse must reject the file",
+            "duplicate_positions_note": "files of 3..129 (quick) / 3..1030 (thorough) names or categories in four layouts; for every position p the p-th one repeats a random earlier one and the parse must reject the file; plus, for every name length of 1..130 bytes (thorough: ..300 and the neighbours of 512 ... 65536), eight files with one duplicate or one near-duplicate (same head, different last or middle character; a name equal to a category name) of names of exactly that length, ASCII and two-byte fillers",
             "note": "the write-fault enumeration is exhaustive per file (every write call x {WouldBlock, Ok(0), StorageFull, EINTR} and every split point); the set of files is sampled",
         },
         "random_runs": agg["runs"] - agg["exhaustive_strings"] - agg["enumerated_dup_positions"],
